@@ -17,6 +17,9 @@ import asyncio
 import socket
 
 
+JOB_TIMES = [0.0, 0.05, 0.7, 3.0, 8.0]
+
+
 class SimDeadlock(Exception):
     pass
 
@@ -73,6 +76,9 @@ class SimLoop(asyncio.SelectorEventLoop):
         self.iterations = 0
         self.max_iterations = max_iterations
         self.vt_deadline = vt_deadline
+        self.max_job_time = 0       # index into JOB_TIMES the chooser may reach
+        self.job_time_rule = None   # callable(job) -> (exec delay s, deliver delay s) or None
+        self.timed_jobs = []
         self.dns = {}               # host -> list of address strings (fake DNS table)
         self.on_job_run = None      # hook(job) called right before a job body runs
         self.on_iteration = None    # hook() called at the top of each iteration
@@ -113,8 +119,46 @@ class SimLoop(asyncio.SelectorEventLoop):
         job = Job(func, args, fut, self.chooser.draw('job_exec', d),
                   self.chooser.draw('job_deliver', d), self.job_seq)
         self.job_seq += 1
+        # "this job is slow, let t advance": optional delays in virtual *time* (a slow disk, a
+        # busy executor); such a job does not hold the clock
+        t1 = t2 = 0.0
+        if self.job_time_rule is not None:
+            t1, t2 = self.job_time_rule(job)
+        elif self.max_job_time:
+            t1 = JOB_TIMES[self.chooser.draw('job_exec_t', self.max_job_time + 1)]
+            t2 = JOB_TIMES[self.chooser.draw('job_deliver_t', self.max_job_time + 1)]
+        if t1 or t2:
+            self.timed_jobs.append(job)
+            self.call_later(t1, self._timed_run, job, t2)
+            return fut
         self.jobs.append(job)
         return fut
+
+    def _timed_run(self, job, t2):
+        if job.state != 'new':
+            return
+        if self.on_job_run is not None:
+            self.on_job_run(job)
+        try:
+            job.result = ('ok', job.func(*job.args))
+        except BaseException as e:
+            job.result = ('exc', e)
+        job.state = 'ran'
+        self.job_log.append(job.name)
+        self.call_later(t2, self._timed_deliver, job)
+
+    def _timed_deliver(self, job):
+        if job.state != 'ran':
+            return
+        job.state = 'done'
+        if job in self.timed_jobs:
+            self.timed_jobs.remove(job)
+        if not job.fut.done():
+            kind, value = job.result
+            if kind == 'ok':
+                job.fut.set_result(value)
+            else:
+                job.fut.set_exception(value)
 
     def _step_jobs(self):
         for job in list(self.jobs):
@@ -146,6 +190,10 @@ class SimLoop(asyncio.SelectorEventLoop):
 
     def drain_jobs(self):
         '''Run every outstanding job to completion (executor join at exit).'''
+        for job in list(self.timed_jobs):
+            if job.state == 'new':
+                self._timed_run(job, 0)
+            self._timed_deliver(job)
         guard = 0
         while self.jobs and guard < 10000:
             for job in self.jobs:
